@@ -235,6 +235,7 @@ func MetaCIDs() (meta [][]byte, nometa []byte) {
 
 func newWorld(t testing.TB, run *hx.Run) *world {
 	c := chainx.New(t, committeeSize)
+	c.FundGAS(300000_0000_0000, c.Payer.ScriptHash()) // for the few operations sent with a 2000 GAS system fee (invokeSized)
 	nns := c.DeployNNS()
 	nm := c.Compile("netmap")
 	c.Deploy(nm, []any{false, util.Uint160{}, util.Uint160{}, []any{c.Members[0].Account().PublicKey().Bytes()},
@@ -262,10 +263,39 @@ func newWorld(t testing.TB, run *hx.Run) *world {
 
 // gasCheck: GAS is outside the model; an invocation that runs out of the fixed system fee is a generator
 // problem (or a contract that loops), never an observation to compare.
+func outOfGas(res chainx.Result) bool {
+	return !res.Halt && (strings.Contains(res.Fault, "insufficient amount of gas") || strings.Contains(res.Fault, "gas limit is exceeded"))
+}
+
 func (w *world) gasCheck(res chainx.Result) {
-	if !res.Halt && strings.Contains(res.Fault, "insufficient amount of gas") {
-		w.run.T.Fatalf("invocation ran out of GAS (system fee 50 GAS): %s", res.Fault)
+	if outOfGas(res) {
+		w.run.T.Fatalf("invocation ran out of GAS even with the raised system fee: %s", res.Fault)
 	}
+}
+
+// invokeSized is Invoke with a system fee that fits the work: the contract verifies every signature against the committed
+// roster of its vector until it finds the signer, so a matrix over rosters of several hundred keys costs more than the 50 GAS the
+// harness's transactions carry by default. Running out of the fee the HARNESS chose is not an observation of the contract, so
+// such operations are sent with 2000 GAS from the start (estimate: signatures x roster length per vector).
+func (w *world) invokeSized(signers []neotest.Signer, method string, cid []byte, m matrix, args ...any) chainx.Result {
+	est := 0
+	if cid != nil && !m.null {
+		for i, row := range m.rows {
+			est += len(row) * (len(w.comm[hx.Hex(cid)][i]) + 1)
+		}
+	}
+	if est > 250 {
+		w.run.Count("gas.rich")
+		tx := w.c.NNSNewTxFee(2000_0000_0000, signers, w.ct, method, args...)
+		return w.c.Exec(tx)[0]
+	}
+	res := w.c.Invoke(signers, w.ct, method, args...)
+	if outOfGas(res) && method == "verifyPlacementSignatures" {
+		// the estimate was too low; the call carries no block height, so it can simply be repeated (a FAULT changes no state)
+		w.run.Count("gas.retried")
+		res = w.c.Exec(w.c.NNSNewTxFee(2000_0000_0000, signers, w.ct, method, args...))[0]
+	}
+	return res
 }
 
 func isConfigKey(k []byte) bool {
@@ -657,7 +687,7 @@ func (w *world) execOp(line string) string {
 		var arg any
 		arg, sigRaw = mtx.resolve(msg)
 		w.selfCheck(mtx, sigRaw, msg, cidArg)
-		res := w.c.Invoke(signers, w.ct, "verifyPlacementSignatures", cidArg, msg, arg)
+		res := w.invokeSized(signers, "verifyPlacementSignatures", cidArg, mtx, cidArg, msg, arg)
 		halt = res.Halt
 		w.lastFault = res.Fault
 		w.gasCheck(res)
@@ -696,7 +726,7 @@ func (w *world) execOp(line string) string {
 		if cidArg != nil {
 			w.selfCheck(mtx, sigRaw, msg, cidArg)
 		}
-		res := w.c.Invoke(signers, w.ct, "submitObjectPut", msg, arg)
+		res := w.invokeSized(signers, "submitObjectPut", cidArg, mtx, msg, arg)
 		halt = res.Halt
 		w.lastFault = res.Fault
 		w.gasCheck(res)
